@@ -743,6 +743,13 @@ class Exec:
             return
         if isinstance(target_expr, ast.Name):
             st.env[target_expr.id] = newval
+        elif isinstance(target_expr, ast.Attribute):
+            # self.cache[key] = v: the updated container is stored back into the attribute of its (local) owner
+            owner = self.eval(st, target_expr.value)
+            r = self._dispatch('store_attr', st, target_expr, owner, target_expr.attr, newval)
+            if r is NotImplemented:
+                raise OutOfSubset('mutation through %s' % ast.unparse(target_expr)[:40])
+            self._rebind(st, target_expr.value, r)
         else:
             raise OutOfSubset('mutation through %s' % ast.unparse(target_expr)[:40])
 
